@@ -63,6 +63,13 @@ NodeDeclaredOK ==
      (G.maprows[r].type = "d" /\ G.maprows[r].asset \in 1..NAs /\ "nodes" \in DOMAIN Tr.assets[G.maprows[r].asset])
         => G.maprows[r].node \in ToSet(Tr.assets[G.maprows[r].asset].nodes)
 
+\* every row of an asset names a step inside the window the asset was DECLARED with (start / end as given by the user, clipped to the
+\* grid; computed by the harness from the declaration and the grid points, independently of any set-up code)
+StepInWindowOK ==
+  \A r \in 1..Len(G.maprows) :
+     (G.maprows[r].asset \in 1..NAs /\ "win" \in DOMAIN Tr.assets[G.maprows[r].asset])
+        => (G.maprows[r].step >= Tr.assets[G.maprows[r].asset].win[1] /\ G.maprows[r].step < Tr.assets[G.maprows[r].asset].win[2])
+
 \* ... and an asset that dispatches at all dispatches at every node it was declared with
 NodesCoveredOK ==
   \A k \in 1..NAs : ("nodes" \in DOMAIN Tr.assets[k]) =>
@@ -107,7 +114,7 @@ FixOK ==
     ELSE F.l1[g + 1] = F.l0[g + 1] /\ F.u1[g + 1] = F.u0[g + 1]
 
 Clauses == << <<"size", SizeOK>>, <<"label_range", LabelRangeOK>>, <<"step_on_grid", StepOK>>, <<"bounds_nan", BoundsOK>>,
-              <<"owner", OwnerOK>>, <<"label_injective", PhiInjective>>, <<"row_owned", EveryRowOwned>>, <<"node_declared", NodeDeclaredOK>>, <<"nodes_covered", NodesCoveredOK>>,
+              <<"owner", OwnerOK>>, <<"label_injective", PhiInjective>>, <<"row_owned", EveryRowOwned>>, <<"node_declared", NodeDeclaredOK>>, <<"nodes_covered", NodesCoveredOK>>, <<"step_in_window", StepInWindowOK>>,
               <<"rows_embedded", RowsEmbeddedOK>>, <<"unmapped_inert", UnmappedInertOK>>, <<"nodal_rows", NodalOK>>,
               <<"fix_window", FixOK>> >>
 FirstFailed == LET bad == SelectSeq(Clauses, LAMBDA c : ~c[2]) IN IF bad = <<>> THEN "" ELSE bad[1][1]
